@@ -4,7 +4,7 @@
 //   load <file>                           -> LOAD
 //   append <file> <entries>               -> <file'> LOAD(file')
 //   session <file> <dead-names> <entries> -> <file'> LOAD(file')
-//   recompact <file> <dead-names>         -> <file'> LOAD(file')
+//   recompact <file> <dead-names>         -> <file'> LOAD(file')   (ninja -t recompact: Load; Recompact unless discarded)
 //   restat <file> <name:mtime,..> <names> -> <file'> LOAD(file')   (prefix "restat-failed " when Restat returned false)
 //   hash <cmd-hex>                        -> hash16 of BuildLog::LogEntry::HashCommand
 //   LOAD = discard old|new warn=<0|1> | ok recompact=<0|1> <entries sorted by name-hex>... | error <hex>
@@ -138,6 +138,7 @@ std::string ShowLoad(const std::string& path) {
   }
   DeadUser probe; std::string perr;
   std::string scratch = g_dir + "/probe";
+  PutFile(scratch, "");                    // ReplaceContent unlinks the destination first and fails if it is absent
   bool ok = log.OpenForWrite(scratch, probe, &perr);
   std::string r = probe.calls > 0 ? "ok recompact=1" : "ok recompact=0";
   if (!ok) r = "ok recompact=error:" + hex(perr);
@@ -242,9 +243,11 @@ int run_buildlog(int, char**) {
       out = "";
       {
         BuildLog log;
-        if (log.Load(path, &err) == LOAD_ERROR) out = "load-error ";
+        // ninja -t recompact (NinjaMain::OpenBuildLog(recompact_only)): nothing to do when Load discarded the log
+        LoadStatus st = log.Load(path, &err);
+        if (st == LOAD_ERROR) out = "load-error ";
         err.clear();
-        if (!log.Recompact(path, user, &err)) out += "recompact-failed ";
+        if (st == LOAD_SUCCESS && !log.Recompact(path, user, &err)) out += "recompact-failed ";
       }
       out += FileAndReload(path);
     } else if (w.size() == 4 && w[0] == "restat") {
